@@ -189,6 +189,10 @@ func (w *Writer) OctetString(b []byte, lb, ub int, ext bool) {
 		w.Octets(b)
 		return
 	}
+	if (ub < 0 || ub >= 65536) && n >= 16384 && n >= lb {
+		w.fragmented(b)
+		return
+	}
 	w.SizeLength(n, lb, ub)
 	if n > 0 {
 		w.Align()
@@ -266,8 +270,25 @@ func (w *Writer) OpenType(content []byte) {
 	if len(content) == 0 {
 		content = []byte{0}
 	}
-	w.Length(len(content))
-	w.Octets(content)
+	w.fragmented(content)
+}
+
+// fragmented writes an unconstrained length determinant followed by the octets; from 16384 octets on
+// in fragments of m x 16K octets (m = 4 while at least 64K remain, else as many as fit), each
+// preceded by the octet 11mmmmmm, and a final ordinary length (possibly 0) for the rest (X.691 10.9.3.8).
+func (w *Writer) fragmented(b []byte) {
+	for len(b) >= 16384 {
+		m := len(b) / 16384
+		if m > 4 {
+			m = 4
+		}
+		w.Align()
+		w.Bits(uint64(0xC0|m), 8)
+		w.Octets(b[:m*16384])
+		b = b[m*16384:]
+	}
+	w.Length(len(b))
+	w.Octets(b)
 }
 
 var ErrTrailing = errors.New("trailing data")
